@@ -90,7 +90,7 @@ pub fn exponents(quick: bool) -> Vec<(u64, &'static str)> {
         }
     }
     // two non-zero digits
-    let pick: Vec<u64> = if quick { vec![1, 2, 3, 64, 127, 128, 129, 192, 253, 254, 255] } else { (1..=255).collect() };
+    let pick: Vec<u64> = if quick { (1..=255u64).filter(|d| d % 8 == 0 || [1, 2, 3, 127, 129, 253, 254, 255].contains(d)).collect() } else { (1..=255).collect() };
     for j in 0..6u32 {
         for k in (j + 1)..6u32 {
             if quick && k != j + 1 && false {
@@ -224,6 +224,15 @@ pub fn run(ctx: &Arc<Ctx>) {
         for b in vals.iter().take(60) {
             let lab = if a.is_zero() && b.is_zero() { "0/0" } else if a.is_zero() { "num=0" } else if b.is_zero() { "den=0" } else { "misc" };
             misc.push((a.clone(), b.clone(), lab));
+        }
+    }
+    // unstructured members: pseudo-random (num, den) pairs, squareness judged by Euler
+    {
+        let n = ctx.t(1usize << 13, 1 << 16);
+        let a = crate::fields::prand(0x09, n, &q);
+        let b = crate::fields::prand(0x0909, n, &q);
+        for (x, y) in a.into_iter().zip(b.into_iter()) {
+            misc.push((x, y, "pseudo-random"));
         }
     }
     run_cases(
